@@ -29,7 +29,8 @@ MANIFEST = {
 REQUIRED = ["KV.C18.kSpaces_table", "KV.C18.initMapSize_observed", "KV.C18.window_inv", "KV.C18.op_transparent",
             "KV.C18.transcript_fn", "KV.C18.after_eof", "KV.C18.shift_progress", "KV.C18.ops_terminate",
             "KV.C18.compressed_concat", "KV.C18.tokenizer_total", "KV.C18.lineIterator_total",
-            "KV.C18.integer_grammars_ok", "KV.C18.nan_not_prefix_determined", "KV.C18.Old.offset_after_compaction", "KV.C18.Old.spurious_eof", "KV.C18.Old.not_transparent"]
+            "KV.C18.integer_grammars_ok", "KV.C18.nan_not_prefix_determined", "KV.C18.Old.offset_after_compaction", "KV.C18.Old.spurious_eof", "KV.C18.Old.offset_after_mmap_fallback",
+            "KV.C18.Old.not_transparent", "KV.C18.kMagicSize_eq"]
 
 UTIL_SRCS = ["file_piece.cc", "read_compressed.cc", "file.cc", "mmap.cc", "exception.cc", "ersatz_progress.cc",
              "spaces.cc", "scoped.cc", "parallel_read.cc", "integer_to_string.cc"]
@@ -212,17 +213,19 @@ class Tools:
 
 def model_cost(n, mb, shim):
     """rough number of list steps the Lean window model needs (reads x window+offset)"""
-    mode, seed, span = shim
+    mode, seed, span = shim[:3]
     avg = {0: 1 << 30, 1: 1, 2: span}.get(mode, span / 2.0 + 1)
     reads = n / avg + 1
     return reads * (n / 2.0 + max(mb, 8192))
 
 
 def block_lines(plain, raw, hkind, mkind, mb, shim, ops, variant="new"):
-    """(harness lines, driver lines) for one backend; same number of lines."""
-    mode, seed, span = shim
-    h = ["data " + raw.hex(), "open %s %d %d %d %d" % (hkind, mb, mode, seed, span)] + ops
-    d = ["data " + plain.hex(), "variant " + variant, "open %s %d %d %d %d" % (mkind, mb, mode, seed, span)] + ops
+    """(harness lines, driver lines) for one backend; same number of lines.  shim = (mode, seed, span[, mmap fails
+    from this file offset])."""
+    mode, seed, span = shim[:3]
+    mm = shim[3] if len(shim) > 3 else -1
+    h = ["data " + raw.hex(), "open %s %d %d %d %d %d" % (hkind, mb, mode, seed, span, mm)] + ops
+    d = ["data " + plain.hex(), "variant " + variant, "open %s %d %d %d %d %d" % (mkind, mb, mode, seed, span, mm)] + ops
     return h, d
 
 
@@ -274,6 +277,11 @@ def run_case(ctx, T, r, ci, found_classes, numbers=True, nan=False):
         sm = r.choice(shim_modes)
         backends.append(("pipe+shim%d" % sm[0], "pipe", "pipe", "plain", True, sm, r.choice(mbs)))
     backends.append(("istream", "istream", "lazy", "plain", True, (0, 0, 1), r.choice(mbs)))
+    # mmap refused by the kernel from some page on (0 = the very first map): MMapShift falls back to read()
+    mmfrom = r.choice([0, 0, PAGE * r.randint(1, max(1, len(plain) // PAGE + 1))])
+    smf = r.choice([(0, 0, 1), (2, 0, PAGE - 1), shim_modes[2]])
+    backends.append(("file+mmapfail%s" % ("+shim%d" % smf[0] if smf[0] else ""), "file", "file", "plain", True,
+                     (smf[0], smf[1], smf[2], mmfrom), r.choice(mbs)))
     codecs = ["gz", "bz2", "xz", "cat"]
     r.shuffle(codecs)
     ncomp = 2 if ctx.tier == "quick" else 4
@@ -354,7 +362,7 @@ def eval_case(ctx, T, r, plain, ops, backends, found_classes, sample=False, raws
         # which code does the implementation follow?  (faithful model of today's tree = `old`)
         follows = None
         if exact:
-            for variant in ("new", "old", "H", "I"):
+            for variant in ("new", "old", "hIF", "HiF", "HIf"):
                 h2, d2 = block_lines(plain, raw, hk, mk, mb, sm, ops, variant)
                 rcv, dov, _ = T.driver(d2)
                 if rcv == 0 and len(dov) == len(d2) and all(
@@ -415,7 +423,9 @@ def eval_case(ctx, T, r, plain, ops, backends, found_classes, sample=False, raws
         if follows == "new":
             what += "; the implementation follows the window model exactly, so the deviation is in what the model takes as a parameter (the number grammar: result not a function of the token alone)"
         elif follows:
-            what += "; the implementation follows the window model variant %r = the faithful model of the unrepaired code (old: neither repair, H: only Offset()-after-compaction repaired, I: only the peek/get EOF test repaired; see Properties/C18 section Old)" % follows
+            what += ("; the implementation follows the window model variant %r = the faithful model of unrepaired code (old: no repair; "
+                     "three letters: lower case = that repair is missing, H Offset() after ReadShift compaction, I peek/get EOF test, "
+                     "F Offset() after the mmap fall back; see Properties/C18 section Old)" % follows)
         rpath = os.path.join(ctx.replay_dir, "data_%s.bin" % sha(rraw))
         os.makedirs(ctx.replay_dir, exist_ok=True)
         with open(rpath, "wb") as f:
@@ -429,11 +439,10 @@ def eval_case(ctx, T, r, plain, ops, backends, found_classes, sample=False, raws
             if b is not None:
                 _, _, impl, model, spec = b
         rep = {"stream": "filepiece", "class": cls, "backend": name, "harness_kind": hk, "codec": codec, "min_buffer": mb,
-               "shim": {"mode": sm[0], "seed": sm[1], "span": sm[2]}, "ops": small, "first_bad_op_index_in_full_script": i,
+               "shim": {"mode": sm[0], "seed": sm[1], "span": sm[2], "mmap_fails_from": sm[3] if len(sm) > 3 else -1}, "ops": small, "first_bad_op_index_in_full_script": i,
                "impl": impl, "model": model, "spec": spec, "follows_variant": follows, "input_file": rpath,
                "input_len": len(rraw), "plain_len": len(rplain), "unshrunk_plain_len": len(plain),
-               "replay_cmd": "printf '%%s\\n' 'open %s %d %d %d %d' <ops…> after 'data <hex of input_file>' | LD_PRELOAD=<shim_read.so> <harness c18> ; "
-                             "or python3 check.py C18 --replay <this file>" % (hk, mb, sm[0], sm[1], sm[2])}
+               "replay_cmd": "python3 check.py C18 --replay <this file>"}
         if ctx.violation(what, rep, key=key):
             found = True
     if sample:
@@ -454,6 +463,10 @@ def directed_cases(ctx, T, r, found_classes):
                        [("pipe", "pipe", "pipe", "plain", True, (0, 0, 1), 1),
                         ("file", "file", "file", "plain", True, (0, 0, 1), 1),
                         ("istream", "istream", "lazy", "plain", True, (0, 0, 1), 1)], found_classes)
+    # F: Properties/C18 `Old.offset_after_mmap_fallback`: the second mmap (file offset 4096) is refused
+    found |= eval_case(ctx, T, r, b"ab " + b"c" * 5000 + b" " + b"e" * 9000 + b" tail\n", ["D sp", "D sp", "D sp", "D sp", "G"],
+                       [("file+mmapfail", "file", "file", "plain", True, (0, 0, 1, 4096), 1),
+                        ("file", "file", "file", "plain", True, (0, 0, 1), 1)], found_classes)
     # NaN is accepted only when the window's last space directly follows it (known finding)
     found |= eval_case(ctx, T, r, b"xxxxx NaN 1\n", ["D sp", "F", "D sp"],
                        [("pipe+shim1", "pipe", "pipe", "plain", True, (1, 0, 1), 1),
@@ -581,7 +594,7 @@ def replay(ctx, path):
         return 1 if rc != 0 else 0
     raw = open(o["input_file"], "rb").read()
     plain = raw if o["codec"] == "plain" else py_decompress(raw)
-    sm = (o["shim"]["mode"], o["shim"]["seed"], o["shim"]["span"])
+    sm = (o["shim"]["mode"], o["shim"]["seed"], o["shim"]["span"], o["shim"].get("mmap_fails_from", -1))
     hk = o["harness_kind"]
     mk = {"file": "file" if o["codec"] == "plain" else "lazy", "pipe": "pipe", "istream": "lazy"}[hk]
     ops = o["ops"]
